@@ -1369,9 +1369,19 @@ struct array : static_array<T, D, Alloc> {
 			if constexpr(multi::allocator_traits<typename array::allocator_type>::propagate_on_container_copy_assignment::value) {
 				this->alloc() = other.alloc();
 			}
+			// allocate and copy before adopting the layout: if either throws, *this stays empty (and valid)
+			auto const count    = static_cast<typename multi::allocator_traits<typename array::allocator_type>::size_type>(other.num_elements());
+			auto const new_base = this->static_::array_alloc::allocate(count);
+			try {
+				this->static_::array_alloc::uninitialized_copy_n(other.data_elements(), static_cast<typename array::size_type>(count), new_base);
+			} catch(...) {
+				if(count) {
+					multi::allocator_traits<typename array::allocator_type>::deallocate(this->alloc(), new_base, count);
+				}
+				throw;
+			}
 			this->layout_mutable() = other.layout();
-			array::allocate();
-			array::uninitialized_copy_elements(other.data_elements());
+			this->base_            = new_base;
 		}
 		return *this;
 	}
@@ -1453,10 +1463,19 @@ struct array : static_array<T, D, Alloc> {
 		if(array::extensions() == extensions) {
 			adl_fill_n(this->base_, this->num_elements(), elem);
 		} else {
-			this->clear();
+			this->clear();  // if the allocation or an element construction below throws, *this stays empty (and valid)
+			auto const count    = static_cast<typename multi::allocator_traits<typename array::allocator_type>::size_type>(typename array::layout_t{extensions}.num_elements());
+			auto const new_base = this->static_::array_alloc::allocate(count, nullptr);
+			try {
+				adl_alloc_uninitialized_fill_n(this->alloc(), new_base, count, elem);
+			} catch(...) {
+				if(count) {
+					multi::allocator_traits<typename array::allocator_type>::deallocate(this->alloc(), new_base, count);
+				}
+				throw;
+			}
 			this->layout_mutable() = typename array::layout_t{extensions};
-			this->base_ = this->static_::array_alloc::allocate(this->num_elements(), nullptr);
-			adl_alloc_uninitialized_fill_n(this->alloc(), this->base_, this->num_elements(), elem);
+			this->base_            = new_base;
 		}
 	}
 
@@ -1495,18 +1514,21 @@ struct array : static_array<T, D, Alloc> {
 		if(extensions == this->extensions()) {
 			return std::move(*this);
 		}
-		this->destroy();
-		this->deallocate();
-		this->layout_mutable() = typename array::layout_t{extensions};
-		this->base_            = this->static_::array_alloc::allocate(
-            static_cast<typename multi::allocator_traits<typename array::allocator_type>::size_type>(
-                typename array::layout_t{extensions}.num_elements()
-            ),
-            this->data_elements()  // used as hint
-        );
+		this->clear();  // if the allocation or a value construction below throws, *this stays empty (and valid)
+		auto const count    = static_cast<typename multi::allocator_traits<typename array::allocator_type>::size_type>(typename array::layout_t{extensions}.num_elements());
+		auto const new_base = this->static_::array_alloc::allocate(count, this->data_elements());  // used as hint
 		if constexpr(!(std::is_trivially_default_constructible_v<typename array::element_type> || multi::force_element_trivial_default_construction<typename array::element_type>)) {
-			adl_alloc_uninitialized_value_construct_n(this->alloc(), this->base_, this->num_elements());
+			try {
+				adl_alloc_uninitialized_value_construct_n(this->alloc(), new_base, count);
+			} catch(...) {
+				if(count) {
+					multi::allocator_traits<typename array::allocator_type>::deallocate(this->alloc(), new_base, count);
+				}
+				throw;
+			}
 		}
+		this->layout_mutable() = typename array::layout_t{extensions};
+		this->base_            = new_base;
 		return std::move(*this);
 	}
 
